@@ -23,6 +23,11 @@ def run_seed(sid, tier='quick', props=None):
             lines = c.stdout.splitlines()
             first = [l for l in lines if l.startswith('  ')][:1]
             out[p] = dict(exit=c.returncode, violations=len([l for l in lines if l.startswith('VIOLATION')]), first=(first or [''])[0].strip()[:260])
+            if os.environ.get('SEEDS_PROOF_ONLY'):
+                # the same check with the bounded part switched off: what the proof obligations alone say
+                c2 = subprocess.run([os.path.join(V, 'check'), p, '--tier', tier], capture_output=True, text=True, env=dict(env, VERIF_NO_BOUNDED='1'), cwd=V)
+                f2 = [l for l in c2.stdout.splitlines() if l.startswith('  obligation')][:1]
+                out[p]['proof_only'] = dict(exit=c2.returncode, first=(f2 or [''])[0].strip()[:200])
         # demo must fail on the patched copy and pass on /repo
         demo = os.path.join(sd, 'demo.py')
         d1 = subprocess.run(['/venv/bin/python', demo], env=dict(os.environ, PYTHONPATH=os.path.join(td, 'src'), PYTHONDONTWRITEBYTECODE='1'), capture_output=True, cwd=td)
